@@ -172,8 +172,9 @@ def branches(ctx, tk, f):
         ctx.decide("C12.c", f, "the histogram counts flat positions (bucket start + offset of the key in its bucket)", True if okf else None, node=n.ast, key="flat:" + state, engine="E5")
         if state == "scalar-nonzero":
             data = val.a[1][0] if val.k == "call" and val.a[1] else val
-            keeps = any((attr_chain(x) or ("",))[-1] == "_values" for x in walk(data)) and data.k == "bin" and data.a[0] == "+"
-            ctx.decide("C12.c", f, "a non-zero initial value is added to the first histogram", True if keeps else False,
+            keeps = any((attr_chain(x) or ("",))[-1] == "_values" for x in walk(data))
+            only_hist = np_call(data, {"bincount"}) is not None or (data.k == "call" and data.a[0].k == "attr" and data.a[0].a[1] == "astype" and np_call(data.a[0].a[0], {"bincount"}))
+            ctx.decide("C12.c", f, "a non-zero initial value is added to the first histogram", True if keeps else (False if only_hist else None),
                        "the counts are rebuilt from the histogram alone: the initial value of every key is lost", node=n.ast, key="initial", engine="E6")
         if kind == "inplace":
             tg = n.ast.target
